@@ -66,8 +66,7 @@ def run_crash(scripts, tag, timeout=7200):
                 f.write(json.dumps(sc) + "\n")
         op = os.path.join(scratch, "out%d.ndjson" % i)
         ep = os.path.join(scratch, "ev%d.ndjson" % i)
-        p = subprocess.Popen([C.NVH, "crash", sp, op, ep, os.path.join(scratch, "db%d" % i)],
-                             stdout=subprocess.PIPE, stderr=subprocess.PIPE, text=True, errors="replace")
+        p = C.Proc([C.NVH, "crash", sp, op, ep, os.path.join(scratch, "db%d" % i)], os.path.join(scratch, "log%d" % i))
         procs.append((p, op, ep))
     runs, events, hangs = {}, [], []
     for p, op, ep in procs:
